@@ -35,28 +35,28 @@ Qed.
 
 Lemma store_revise1_ok d id nrev nfsize nmroot old acts d' k :
   store_revise1 d id nrev nfsize nmroot old acts None = Ok (d', k) ->
-  exists c t', alookup id (t1 d) = Some c /\
-    store_replay (stored d) (rows c) old acts None = Ok (t', None) /\
-    d' = set_t1 d (aset id (with_rows (with_rev c nrev nfsize nmroot) t') (t1 d)).
+  exists c t' ns', alookup id (t1 d) = Some c /\
+    store_replay (stored d) (rows c) old (nsec d) acts None = Ok ((t', ns'), None) /\
+    d' = set_nsec (set_t1 d (aset id (with_rows (with_rev c nrev nfsize nmroot) t') (t1 d))) ns'.
 Proof.
   cbv [store_revise1 transaction mbind stmt ret lift].
   destruct (alookup id (t1 d)) as [c|]; [|discriminate].
-  destruct (store_replay (stored d) (rows c) old acts None) as [[t' k1]| |] eqn:E; try discriminate.
-  pose proof (proj1 (fok_store_replay (stored d) acts (rows c) old) _ _ E) as ->.
-  intros [= <- _]. now exists c, t'.
+  destruct (store_replay (stored d) (rows c) old (nsec d) acts None) as [[[t' ns'] k1]| |] eqn:E; try discriminate.
+  pose proof (proj1 (fok_store_replay (stored d) acts (rows c) old (nsec d)) _ _ E) as ->.
+  intros [= <- _]. now exists c, t', ns'.
 Qed.
 
 Lemma store_revise2_ok d id c old new d' k :
   store_revise2 d id c old new None = Ok (d', k) ->
-  exists e t', alookup id (t2 d) = Some e /\
-    v2_diff (stored d) (rows e) old new None = Ok (t', None) /\
-    d' = set_t2 d (aset id (with_rows (with_rv2 e c) t') (t2 d)).
+  exists e t' ns', alookup id (t2 d) = Some e /\
+    v2_diff (stored d) (rows e) old new (nsec d) None = Ok ((t', ns'), None) /\
+    d' = set_nsec (set_t2 d (aset id (with_rows (with_rv2 e c) t') (t2 d))) ns'.
 Proof.
   cbv [store_revise2 transaction mbind stmt ret lift].
   destruct (alookup id (t2 d)) as [e|]; [|discriminate].
-  destruct (v2_diff (stored d) (rows e) old new None) as [[t' k1]| |] eqn:E; try discriminate.
-  pose proof (proj1 (fok_v2_diff (stored d) (rows e) old new) _ _ E) as ->.
-  intros [= <- _]. now exists e, t'.
+  destruct (v2_diff (stored d) (rows e) old new (nsec d) None) as [[[t' ns'] k1]| |] eqn:E; try discriminate.
+  pose proof (proj1 (fok_v2_diff (stored d) (rows e) old new (nsec d)) _ _ E) as ->.
+  intros [= <- _]. now exists e, t', ns'.
 Qed.
 
 Lemma store_renew1_ok d old new crev cfsize cmroot nc d' k :
@@ -112,6 +112,62 @@ Proof.
   - intros ND. repeat apply NoDup_aset. exact ND.
 Qed.
 
+(** * the number of root rows of a table *)
+
+Fixpoint total (t : list (cid * ct)) : N :=
+  match t with [] => 0 | (_, c) :: k => nlen (rows c) + total k end.
+
+Lemma total_aset_none id c t : alookup id t = None -> total (aset id c t) = total t + nlen (rows c).
+Proof.
+  induction t as [|[k x] t IH]; cbn; intros L; [lia|].
+  destruct (id =? k) eqn:E; [discriminate|]. cbn. rewrite IH by exact L. lia.
+Qed.
+
+Lemma total_aset_some id c c0 t : alookup id t = Some c0 ->
+  total (aset id c t) + nlen (rows c0) = total t + nlen (rows c).
+Proof.
+  induction t as [|[k x] t IH]; cbn; intros L; [discriminate|].
+  destruct (id =? k) eqn:E.
+  - injection L as ->. cbn. lia.
+  - cbn. specialize (IH L). lia.
+Qed.
+
+Lemma total_ge id c t : alookup id t = Some c -> nlen (rows c) <= total t.
+Proof.
+  induction t as [|[k x] t IH]; cbn; intros L; [discriminate|].
+  destruct (id =? k); [injection L as ->; lia|specialize (IH L); lia].
+Qed.
+
+(* a renewal moves the rows: their number stays *)
+Lemma total_renew t old new (c oc nc : ct) :
+  old <> new -> alookup new t = None -> alookup old t = Some c ->
+  rows oc = rows c -> rows nc = [] ->
+  total (move_rows old new (link_from old new (aset old oc (aset new nc t)))) = total t.
+Proof.
+  intros Hne Ln Lo Ro Rn.
+  assert (Eno : (new =? old) = false) by lia. assert (Eon : (old =? new) = false) by lia.
+  unfold link_from. rewrite alookup_aset, Eno, alookup_aset, N.eqb_refl.
+  unfold move_rows. rewrite Eon.
+  repeat (rewrite ?alookup_aset, ?N.eqb_refl, ?Eon, ?Eno; cbn iota).
+  set (T1 := aset new nc t). set (T2 := aset old oc T1).
+  set (T3 := aset new (with_from nc (Some old)) T2).
+  set (T4 := aset new (with_rows (with_from nc (Some old)) (rows oc)) T3).
+  assert (H1 : total T1 = total t) by (subst T1; rewrite total_aset_none, Rn by exact Ln; cbn; lia).
+  assert (L1 : alookup old T1 = Some c) by (subst T1; now rewrite alookup_aset, Eon).
+  pose proof (total_aset_some old oc c T1 L1) as H2. fold T2 in H2. rewrite Ro in H2.
+  assert (L2 : alookup new T2 = Some nc) by (subst T2 T1; now rewrite alookup_aset, Eno, alookup_aset, N.eqb_refl).
+  pose proof (total_aset_some new (with_from nc (Some old)) nc T2 L2) as H3. fold T3 in H3.
+  cbn [with_from rows] in H3.
+  assert (L3 : alookup new T3 = Some (with_from nc (Some old))) by (subst T3; now rewrite alookup_aset, N.eqb_refl).
+  pose proof (total_aset_some new (with_rows (with_from nc (Some old)) (rows oc)) _ T3 L3) as H4. fold T4 in H4.
+  cbn [with_rows with_from rows] in H4. rewrite Rn in H4.
+  assert (L4 : alookup old T4 = Some oc).
+  { subst T4 T3 T2. now rewrite alookup_aset, Eon, alookup_aset, Eon, alookup_aset, N.eqb_refl. }
+  pose proof (total_aset_some old (with_rows oc []) oc T4 L4) as H5. cbn [with_rows rows] in H5.
+  change (total (aset old (with_rows oc []) T4) = total t).
+  change (nlen (@nil (N * root))) with 0 in H4, H5. lia.
+Qed.
+
 (** * the invariant *)
 
 Section Inv.
@@ -146,7 +202,9 @@ Record Inv (s : state) : Prop := {
   inv_cdom : forall id, alookup id (cache s) <> None ->
              alookup id (t1 (dbs s)) <> None \/ alookup id (t2 (dbs s)) <> None;
   inv_upd : upd_ok s;
-  inv_unodup : NoDup (map fst (upds s)) }.
+  inv_unodup : NoDup (map fst (upds s));
+  (* the contract-sector counter equals the number of root rows (what C05 asks of it) *)
+  inv_nsec : nsec (dbs s) = total (t1 (dbs s)) + total (t2 (dbs s)) }.
 
 (** * discipline: what the RHP handlers guarantee about their calls, and what the
    oracle fields of an operation mean *)
@@ -380,15 +438,16 @@ Proof. intros H x; unfold cache_get; rewrite H, alookup_aset. now destruct (x =?
 
 (* tables and cache untouched *)
 Lemma inv_frame s s' :
-  Inv s -> t1 (dbs s') = t1 (dbs s) -> t2 (dbs s') = t2 (dbs s) -> cache s' = cache s ->
-  upd_ok s' -> NoDup (map fst (upds s')) -> Inv s'.
+  Inv s -> t1 (dbs s') = t1 (dbs s) -> t2 (dbs s') = t2 (dbs s) -> nsec (dbs s') = nsec (dbs s) ->
+  cache s' = cache s -> upd_ok s' -> NoDup (map fst (upds s')) -> Inv s'.
 Proof.
-  intros I E1 E2 Ec U N. pose proof (cache_get_same s s' Ec) as G.
-  constructor; auto; rewrite ?E1, ?E2, ?Ec.
+  intros I E1 E2 En Ec U N. pose proof (cache_get_same s s' Ec) as G.
+  constructor; auto; rewrite ?E1, ?E2, ?Ec, ?En.
   - eapply tab_ok_ext; [|exact (inv_t1 s I)]. intros; now rewrite G.
   - eapply tab_ok_ext; [|exact (inv_t2 s I)]. intros; now rewrite G.
   - exact (inv_disj s I).
   - exact (inv_cdom s I).
+  - exact (inv_nsec s I).
 Qed.
 
 Lemma upd_ok_frame s s' :
@@ -399,10 +458,10 @@ Proof.
 Qed.
 
 Lemma inv_simple s s' :
-  Inv s -> t1 (dbs s') = t1 (dbs s) -> t2 (dbs s') = t2 (dbs s) -> cache s' = cache s ->
-  upds s' = upds s -> Inv s'.
+  Inv s -> t1 (dbs s') = t1 (dbs s) -> t2 (dbs s') = t2 (dbs s) -> nsec (dbs s') = nsec (dbs s) ->
+  cache s' = cache s -> upds s' = upds s -> Inv s'.
 Proof.
-  intros I E1 E2 Ec Eu. apply (inv_frame s s' I E1 E2 Ec).
+  intros I E1 E2 En Ec Eu. apply (inv_frame s s' I E1 E2 En Ec).
   - now apply (upd_ok_frame s s' (inv_upd s I)).
   - rewrite Eu. exact (inv_unodup s I).
 Qed.
@@ -489,7 +548,7 @@ Proof.
     cbn [fst]; try exact I.
   apply store_add1_ok in E as [L1 ->].
   pose proof (cache_absent s id I L1 L2) as Cg.
-  constructor; cbn [dbs set_dbs set_t1 t1 t2 cache upds].
+  constructor; cbn [dbs set_dbs set_t1 t1 t2 cache upds nsec].
   - eapply tab_ok_ext; [|apply (tab_ok_insert true (cache_get s)); [exact (inv_t1 s I)|exact L1|reflexivity|reflexivity|]].
     + intros; reflexivity.
     + rewrite Cg. repeat split; cbn [rows fsize mroot]; reflexivity || lia.
@@ -501,6 +560,7 @@ Proof.
     rewrite alookup_aset. destruct (x =? id); [discriminate|exact H].
   - eapply (upd_ok_t1_insert s); [exact (inv_upd s I)|exact L1|reflexivity].
   - exact (inv_unodup s I).
+  - cbn [nsec]. rewrite total_aset_none by exact L1. cbn [rows]. rewrite (inv_nsec s I). cbn. lia.
 Qed.
 
 Lemma inv_form2 s id c :
@@ -510,7 +570,7 @@ Proof.
   destruct (store_add2 (dbs s) id (ct_of_rv2 c) None) as [[d' k]|e|] eqn:E; cbn [fst]; try exact I.
   apply store_add2_ok in E as [L2 ->].
   pose proof (cache_absent s id I L1 L2) as Cg.
-  constructor; cbn [dbs set_dbs set_t2 t1 t2 cache upds].
+  constructor; cbn [dbs set_dbs set_t2 t1 t2 cache upds nsec].
   - exact (inv_t1 s I).
   - eapply tab_ok_ext; [|apply (tab_ok_insert false (cache_get s)); [exact (inv_t2 s I)|exact L2|reflexivity|reflexivity|]].
     + intros; reflexivity.
@@ -522,6 +582,7 @@ Proof.
     rewrite alookup_aset. destruct (x =? id); [discriminate|exact H].
   - intros u x L. destruct (inv_upd s I u x L) as (H1 & H2 & H3 & H4). repeat split; auto.
   - exact (inv_unodup s I).
+  - cbn [nsec]. rewrite total_aset_none by exact L2. cbn [rows ct_of_rv2]. rewrite (inv_nsec s I). cbn. lia.
 Qed.
 
 End Inv.
